@@ -82,6 +82,8 @@ def main():
     chk.cov["samples"] = [{"program": c["prog"], "scenarios": c["scens"], "unmock_with": c["unmock"]} for c in sel[:: max(1, len(sel) // 5)][:5]]
     for b in bad:
         b["detail"] = f"scenario={b['sc']} at={b['at']} program={byid[b['case']]['prog']}"
+    for cid, why in c01.CRASHED.items():
+        bad.append({"case": cid, "conjunct": "runs-to-completion", "cls": "", "detail": f"program={byid[cid]['prog']} {why}"})
     for cid in dropped:
         bad.append({"case": cid, "conjunct": "mock-api-nameable-and-compiles", "cls": "",
                     "detail": f"program={byid[cid]['prog']} diag={[d['message'][:160] for d in dropped[cid]][:2]}"})
